@@ -186,6 +186,66 @@ pub fn genesis_fields<S: Src>(s: &mut S) {
     std::mem::forget(block);
 }
 
+/// `Block::try_from_executed` is how a header received from the network becomes a
+/// block before it is verified (sync path). It must hand the header on exactly as
+/// received: if it normalised a field (e.g. recomputed the application hash), a
+/// header whose hash does not match its content would pass the later check.
+/// Cuts under Kani: the transaction-root check returns a symbolic verdict and the
+/// two hash functions return arbitrary values (so any recomputation shows).
+pub fn try_from_executed_preserves_header<S: Src>(s: &mut S) {
+    let height = s.u32();
+    let prev_root = small_bytes32(s);
+    let da = s.u64();
+    let time = s.u64();
+    let app_hash = small_bytes32(s);
+    let cut_hash = small_bytes32(s);
+    let cut_valid = s.bool();
+    #[cfg(kani)]
+    unsafe {
+        CUT_APP_HASH = *cut_hash;
+        CUT_TX_VALID = cut_valid;
+    }
+    let mut header = BlockHeader::V1(BlockHeaderV1::default());
+    header.consensus_mut().height = height.into();
+    header.consensus_mut().prev_root = prev_root;
+    header.consensus_mut().time = Tai64(time);
+    header.consensus_mut().generated.application_hash = app_hash;
+    match &mut header {
+        BlockHeader::V1(h) => {
+            h.application_mut().da_height = DaBlockHeight(da);
+            // native replay: the real transaction-root check runs, so give the header
+            // the root of its (empty) transaction list
+            #[cfg(not(kani))]
+            {
+                h.application_mut().generated.transactions_root = fuel_core_types::blockchain::header::generate_txns_root(&[]);
+            }
+        }
+    }
+    let txs: Vec<Transaction> = Vec::with_capacity(1);
+    let r = Block::try_from_executed(header.clone(), txs);
+    #[cfg(kani)]
+    vassert!(r.is_some() == cut_valid, "C15 a block is built from a received header exactly when its transactions match the header");
+    if let Some(block) = &r {
+        let h = block.header();
+        vassert!(h.application_hash() == &app_hash, "C15 the application hash of a received header is handed on unchanged");
+        vassert!(*h.height() == height.into() && h.prev_root() == &prev_root && h.time() == Tai64(time) && h.da_height() == DaBlockHeight(da),
+            "C15 the fields of a received header are handed on unchanged");
+        vassert!(*h == header, "C15 a received header is handed on unchanged");
+    }
+    let _ = cut_hash;
+    vreach!();
+    vreach!(r.is_some(), "C15 conversion of a matching header reachable");
+    std::mem::forget(r);
+    std::mem::forget(header);
+}
+
+#[cfg(kani)]
+pub fn cut_header_id(_h: &BlockHeaderV1) -> fuel_core_types::blockchain::primitives::BlockId {
+    let mut b = [0u8; 32];
+    b[3] = kani::any();
+    fuel_core_types::blockchain::primitives::BlockId::from(Bytes32::new(b))
+}
+
 #[cfg(kani)]
 mod proofs {
     use super::*;
@@ -207,4 +267,18 @@ mod proofs {
     }
     proof!(c15_poa_fields, poa_fields);
     proof!(c15_genesis_fields, genesis_fields);
+
+    // here `recalculate_metadata` stays REAL (a recomputation must be visible);
+    // only the hash functions underneath it are cut
+    #[kani::proof]
+    #[kani::stub(std::rt::thread_cleanup, crate::noop)]
+    #[kani::stub(fuel_core_types::blockchain::header::ApplicationHeader::<fuel_core_types::blockchain::header::v1::GeneratedApplicationFieldsV1>::hash, cut_app_hash)]
+    #[kani::stub(fuel_core_types::blockchain::header::BlockHeader::validate_transactions, cut_validate_transactions)]
+    #[kani::stub(fuel_core_types::blockchain::header::BlockHeaderV1::hash, cut_header_id)]
+    #[kani::stub(std::fmt::format, crate::fmt_stub)]
+    #[kani::stub(std::backtrace::Backtrace::capture, crate::bt_disabled)]
+    #[kani::unwind(34)]
+    fn c15_try_from_executed() {
+        try_from_executed_preserves_header(&mut KaniSrc);
+    }
 }
